@@ -1,5 +1,133 @@
 import ZoektModel.Basic.Proto
+import ZoektModel.C30.Spec
 namespace ZoektModel.C30
-/-- stub: no model driver for C30 yet -/
-def main : IO Unit := ZoektModel.Proto.runLines (fun _ => ZoektModel.Proto.badCase "no model driver for C30")
+open ZoektModel ZoektModel.Proto
+
+/-! line protocol (one history = `new …` followed by operations; the driver is stateful)
+
+    new <backoffNs> <maxNs>            add <rid> <var> <now>        idx <rid> <var> <state> <now>
+    pop                                bump <ids> <now>             rm <ids> <observed pq>
+    len                                iter
+
+  answer / implementation output: `res=<r> seq=<n> pq=<ids> items=<id:rid.var:indexed:state:heapIdx:seq:cf:until:date;…>`
+  (items by ascending id; until = `Z` zero time, `E` Unix epoch, or nanoseconds; date = `Z`, `E` or `T`). -/
+
+def showT (t : Int) : String := if t = tZero then "Z" else if t = tEpoch then "E" else toString t
+def showDate (t : Int) : String := if t = tZero then "Z" else if t = tEpoch then "E" else "T"
+
+def insertById (x : Item) : List Item → List Item
+  | [] => [x]
+  | y :: r => if x.id ≤ y.id then x :: y :: r else y :: insertById x r
+
+def sortItems (l : List Item) : List Item := l.foldr insertById []
+
+def showItem (x : Item) : String :=
+  s!"{x.id}:{x.opts.rid}.{x.opts.var}:{showBool x.indexed}:{x.state}:{x.heapIdx}:{x.seq}:{x.cf}:{showT x.untl}:{showDate x.date}"
+
+def render (res : String) (q : Q) : String :=
+  s!"res={res} seq={q.seq} pq={showNatList q.pq} items={if q.items.isEmpty then "-" else ";".intercalate ((sortItems q.items).map showItem)}"
+
+def parseT (s : String) : Option Int :=
+  if s == "Z" then some tZero else if s == "E" then some tEpoch else if s == "T" then some 0 else s.toInt?
+
+def parseOpts (s : String) : Option Opts :=
+  match s.splitOn "." with
+  | [a, b] => do pure ⟨← a.toNat?, ← b.toNat?⟩
+  | _ => none
+
+def parseItem (s : String) : Option Item :=
+  match s.splitOn ":" with
+  | [id, o, ind, st, hi, sq, cf, un, da] => do
+    pure ⟨← id.toNat?, ← parseOpts o, ← bool? ind, ← st.toNat?, ← hi.toInt?, ← sq.toNat?, ← parseT da, ← cf.toNat?, ← parseT un⟩
+  | _ => none
+
+def parseItems (s : String) : Option (List Item) :=
+  if s == "-" then some [] else (s.splitOn ";").mapM parseItem
+
+def dropPrefix? (s pre : String) : Option String :=
+  if s.startsWith pre then some (s.drop pre.length).toString else none
+
+/-- implementation output → (res, state) -/
+def parseImpl (dur maxB : Int) (s : String) : Option (String × Q) :=
+  match fields s with
+  | [r, sq, pq, its] => do
+    let r ← dropPrefix? r "res="
+    let sq ← (← dropPrefix? sq "seq=").toNat?
+    let pq ← natList? (← dropPrefix? pq "pq=")
+    let its ← parseItems (← dropPrefix? its "items=")
+    pure (r, ⟨its, pq, sq, dur, maxB⟩)
+  | _ => none
+
+def showPop : Option (Opts × Int) → String
+  | none => "none"
+  | some (o, d) => s!"{o.rid}.{o.var}@{showDate d}"
+
+def parsePop (s : String) : Option (Option (Opts × Int)) :=
+  if s == "none" then some none else
+  match s.splitOn "@" with
+  | [o, d] => do pure (some (← parseOpts o, ← parseT d))
+  | _ => none
+
+def sortNat (l : List Nat) : List Nat :=
+  l.foldr (fun x acc => (acc.filter (· < x)) ++ x :: (acc.filter (fun y => ¬ y < x))) []
+
+structure St where
+  model : Q
+  impl : Q
+  live : Bool
+
+def verdict (model : String) : Option String → String
+  | none => answer model
+  | some k => specFail model k
+
+def handle (st : St) (line : String) : St × String :=
+  let (inp, impl) := splitCase line
+  match fields inp with
+  | ["new", d, m] =>
+    match d.toInt?, m.toInt? with
+    | some d, some m =>
+      let q := newQ d m
+      match parseImpl q.dur q.maxB impl with
+      | none => (st, badCase "impl output")
+      | some (_, iq) => (⟨q, iq, true⟩, answer (render "-" q))
+    | _, _ => (st, badCase "new")
+  | op :: args =>
+    if !st.live then (st, badCase "no queue") else
+    match parseImpl st.model.dur st.model.maxB impl with
+    | none => (st, badCase "impl output")
+    | some (ires, iq) =>
+      let fin (q : Q) (res : String) (o : Option Obs) : St × String :=
+        (⟨q, iq, true⟩, verdict (render res q) (match o with | some o => checkStep st.impl iq o | none => none))
+      match op, args with
+      | "add", [r, v, now] =>
+        match r.toNat?, v.toNat?, now.toInt? with
+        | some r, some v, some now => fin (addOrUpdate st.model ⟨r, v⟩ now) "-" (some (.add ⟨r, v⟩ now))
+        | _, _, _ => (st, badCase "add")
+      | "idx", [r, v, s, now] =>
+        match r.toNat?, v.toNat?, s.toNat?, now.toInt? with
+        | some r, some v, some s, some now => fin (setIndexed st.model ⟨r, v⟩ s now) "-" (some (.idx ⟨r, v⟩ s now))
+        | _, _, _, _ => (st, badCase "idx")
+      | "pop", [] =>
+        let r := pop st.model
+        match parsePop ires with
+        | some ip => fin r.1 (showPop r.2) (some (.pop ip))
+        | none => (st, badCase "pop result")
+      | "bump", [ids, now] =>
+        match natList? ids, now.toInt?, natList? ires with
+        | some ids, some now, some im =>
+          let r := bump st.model ids now
+          fin r.1 (showNatList r.2) (some (.bump ids now im))
+        | _, _, _ => (st, badCase "bump")
+      | "rm", [ids, obs] =>
+        match natList? ids, natList? obs, natList? ires with
+        | some ids, some obs, some ir =>
+          let r := removeMissing st.model ids
+          fin (adoptPq r.1 obs) (showNatList (sortNat r.2)) (some (.rm ids ir))
+        | _, _, _ => (st, badCase "rm")
+      | "len", [] => fin st.model (toString st.model.pq.length) none
+      | "iter", [] => fin st.model (showNatList (sortNat (st.model.items.map (·.opts.rid)))) none
+      | _, _ => (st, badCase "op")
+  | [] => (st, badCase "empty")
+
+def main : IO Unit := runState (⟨newQ 0 0, newQ 0 0, false⟩ : St) handle
 end ZoektModel.C30
